@@ -66,6 +66,13 @@ def check_search(ctx, case):
     pat, wd, kind, linear, pos, endpos = (case[k] for k in ("pat", "word", "kind", "linear", "pos", "endpos"))
     n = len(wd)
     circ = (not linear) or kind == "circrec"
+    # the same pattern text spelt in lower case may have been compiled earlier in the process (lower-case letters are
+    # literals, not codes): one pattern object knows nothing of another
+    if ctx.evaluations % 2 == 0:
+        try:
+            DNARegex(pat.lower())
+        except Exception:  # noqa
+            pass
     rx = DNARegex(pat)
     kw = {} if endpos is None else {"endpos": endpos}
     m = rx.search(impl.search_target(wd, kind), pos=pos, linear=linear, **kw)
@@ -98,6 +105,18 @@ def check_search(ctx, case):
                 ctx.fail("group {} of {!r} on {!r} has span ({}, {}) = {!r} but is returned as {!r}".format(
                     i, pat, wd, a, b, data[a:b], txt), case)
                 break
+    # what group() hands out is the caller's: editing it does not change what the match says next time
+    if m is not None and kind in ("rec", "circrec") and n >= 1:
+        a0, b0 = m.span(0)
+        g0 = m.group(0)
+        try:
+            g0.seq = impl.Seq("T" * len(g0.seq))
+            g0.id = "edited"
+        except Exception:  # noqa
+            pass
+        if impl.as_str(m.group(0)) != data[a0:b0]:
+            ctx.fail("after the record returned by group(0) was edited by the caller, group(0) of the same match is {!r} "
+                     "instead of {!r}".format(impl.as_str(m.group(0)), data[a0:b0]), case)
     # the same compiled pattern used on another target in between must not change the answer
     if n >= 2:
         def view(mm):
